@@ -8,7 +8,7 @@ Extraction "model.ml"
   k256_codec p256_codec pallas_codec vesta_codec blsg1_codec ed25519_codec curve25519_c
   sec1_dec_c sec1_enc_c sec1_dec_u sec1_enc_u
   pasta_dec_c pasta_enc_c pasta_dec_u pasta_enc_u
-  blsg1_dec_c blsg1_enc_c blsg1_dec_u blsg1_enc_u blsg1_from_affine
+  blsg1_dec_c blsg1_enc_c blsg1_dec_u blsg1_enc_u blsg1_from_affine blsg1_from_affine_x
   w_from_affine w_from_affine_x w_torsion_free
   ed_dec_c ed_enc_c ed_dec_u ed_enc_u ed_from_affine edp_dec_c edp_dec_u edp_from_affine e_torsion_free
   x_dec_c x_enc_c x_dec_u x_enc_u x_from_affine xp_dec_c xp_dec_u x_affine_u x_affine_v
